@@ -5,9 +5,20 @@ use sc62015_core::llama::state::LlamaState;
 use serde_json::{json, Value};
 use std::collections::HashMap;
 
+pub fn hash_byte(a: u32) -> u8 {
+    ((a.wrapping_mul(73)) ^ (a >> 7) ^ 0x5A) as u8
+}
+
+/// Canonical bus address used by BOTH harness buses (see harness/py/exec_harness.py::canon).
+pub fn canon(a: u32) -> u32 {
+    let a = a & 0x00FF_FFFF;
+    if (0x10_0000..0x10_0200).contains(&a) { 0x10_0000 + (a & 0xFF) } else { a & 0x000F_FFFF }
+}
+
 pub struct SparseBus {
     pub mem: HashMap<u32, u8>,
     pub default: u8,
+    pub hashed: bool,
     pub reads: Vec<(u32, u8)>,
     pub writes: Vec<(u32, u8)>,
 }
@@ -17,8 +28,11 @@ impl LlamaBus for SparseBus {
         let bytes = bits.div_ceil(8).max(1) as u32;
         let mut out = 0u32;
         for i in 0..bytes {
-            let a = addr.wrapping_add(i);
-            let b = *self.mem.get(&a).unwrap_or(&self.default);
+            let a = canon(addr.wrapping_add(i));
+            let b = match self.mem.get(&a) {
+                Some(v) => *v,
+                None => if self.hashed { hash_byte(a) } else { self.default },
+            };
             self.reads.push((a, b));
             out |= (b as u32) << (8 * i);
         }
@@ -27,7 +41,7 @@ impl LlamaBus for SparseBus {
     fn store(&mut self, addr: u32, bits: u8, value: u32) {
         let bytes = bits.div_ceil(8).max(1) as u32;
         for i in 0..bytes {
-            let a = addr.wrapping_add(i);
+            let a = canon(addr.wrapping_add(i));
             let b = ((value >> (8 * i)) & 0xFF) as u8;
             self.mem.insert(a, b);
             self.writes.push((a, b));
@@ -46,7 +60,7 @@ impl Default for ExecCtx {
         ExecCtx {
             exec: LlamaExecutor::new(),
             state: LlamaState::new(),
-            bus: SparseBus { mem: HashMap::new(), default: 0, reads: Vec::new(), writes: Vec::new() },
+            bus: SparseBus { mem: HashMap::new(), default: 0, hashed: false, reads: Vec::new(), writes: Vec::new() },
         }
     }
 }
@@ -80,6 +94,9 @@ fn apply_setup(ctx: &mut ExecCtx, req: &Value, fresh: bool) -> Result<(), String
     if let Some(d) = req.get("default").and_then(|d| d.as_u64()) {
         ctx.bus.default = d as u8;
     }
+    if let Some(h) = req.get("hashed").and_then(|d| d.as_bool()) {
+        ctx.bus.hashed = h;
+    }
     if let Some(regs) = req.get("regs").and_then(|r| r.as_object()) {
         for (k, v) in regs {
             let reg = crate::regs::reg_by_name(k).ok_or(format!("bad reg {k}"))?;
@@ -105,7 +122,10 @@ fn step_once(ctx: &mut ExecCtx) -> Value {
     let pc = ctx.state.pc();
     ctx.bus.reads.clear();
     ctx.bus.writes.clear();
-    let opcode = *ctx.bus.mem.get(&pc).unwrap_or(&ctx.bus.default);
+    let opcode = match ctx.bus.mem.get(&pc) {
+        Some(v) => *v,
+        None => if ctx.bus.hashed { hash_byte(pc) } else { ctx.bus.default },
+    };
     let r = ctx.exec.execute(opcode, &mut ctx.state, &mut ctx.bus);
     let (len, err) = match r {
         Ok(l) => (l as i64, Value::Null),
@@ -173,7 +193,7 @@ pub fn handle(ctx: &mut ExecCtx, cmd: &str, req: &Value) -> Result<Value, String
                 .iter()
                 .map(|a| {
                     let a = a.as_u64().unwrap_or(0) as u32;
-                    json!([a, *ctx.bus.mem.get(&a).unwrap_or(&ctx.bus.default)])
+                    json!([a, match ctx.bus.mem.get(&a) { Some(v) => *v, None => if ctx.bus.hashed { hash_byte(a) } else { ctx.bus.default } }])
                 })
                 .collect();
             Ok(json!({"mem": out}))
